@@ -8,8 +8,9 @@
 //	response  =  9 bytes: uint32 length(9)  | uint32 id | 1
 //	close msg =  9 bytes: uint32 length(9)  | uint32 0  | 2          (what GetCloseMsg returns)
 //
-// flags: 1 = hold the receiver in ParsePackage on this request; 2 = one-way request (Invoke marks the
-// context TARSONEWAY: the server must not write a response); 4 = Invoke returns an empty response.
+// flags (low byte): 1 = hold the receiver in ParsePackage on this request; 2 = one-way request (Invoke marks the
+// context TARSONEWAY: the server must not write a response); 4 = Invoke returns an empty response; flags >> 8 = size of the response in KiB (0: the 9 byte
+// response), the response is then 9 bytes of header followed by padding.
 // Invoke sleeps the duration and echoes the id. ParsePackage records the moment the receive loop
 // sees a complete request at the head of its buffer (event P: from then on the server HAS read the
 // request — the unambiguous meaning of "already read") and, for a request with flag 1, holds the
@@ -65,11 +66,15 @@ type ReqPlan struct {
 	Dur    int    `json:"dur_ms"`
 	LateMs int    `json:"late_ms,omitempty"` // > 0: written this long after Shutdown was called
 	Stall  bool   `json:"stall,omitempty"`   // the receiver is held in ParsePackage on this request
+	RspKiB int    `json:"rsp_kib,omitempty"` // size of the response (0: 9 bytes)
 	Kind   string `json:"kind,omitempty"`    // "" ordinary | "oneway" TARSONEWAY packet | "empty" Invoke returns an empty response
 }
 
 type ConnPlan struct {
 	Reqs []ReqPlan `json:"reqs"`
+	// slow reader: the client stops reading once it is warmed up and resumes this long after the
+	// shutdown was called (then it drains everything); its receive buffer is made small
+	PauseMs int `json:"pause_ms,omitempty"`
 }
 
 type Scenario struct {
@@ -211,8 +216,12 @@ func (p *proto) Invoke(ctx context.Context, pkg []byte) []byte {
 	if flags&4 != 0 {
 		return nil
 	}
-	out := make([]byte, rspLen)
-	binary.BigEndian.PutUint32(out, rspLen)
+	n := rspLen
+	if kib := int(flags >> 8); kib > 0 {
+		n = kib * 1024
+	}
+	out := make([]byte, n)
+	binary.BigEndian.PutUint32(out, uint32(n))
 	binary.BigEndian.PutUint32(out[4:], uint32(id))
 	out[8] = kindRsp
 	return out
@@ -305,18 +314,46 @@ func request(id, dur int, flags uint32) []byte {
 // one execution
 
 type client struct {
-	idx  int
-	conn net.Conn
-	eof  chan struct{}
+	idx    int
+	conn   net.Conn
+	eof    chan struct{}
+	mu     sync.Mutex
+	resume chan struct{} // non-nil while the client does not read
+}
+
+// pause makes the read loop stop before its next frame; the returned function lets it go on.
+func (c *client) pause() func() {
+	ch := make(chan struct{})
+	c.mu.Lock()
+	c.resume = ch
+	c.mu.Unlock()
+	var once sync.Once
+	return func() { once.Do(func() { close(ch) }) }
 }
 
 func (c *client) readLoop(rec *recorder) {
 	defer close(c.eof)
 	hdr := make([]byte, rspLen)
 	for {
+		c.mu.Lock()
+		gate := c.resume
+		c.mu.Unlock()
+		if gate != nil {
+			<-gate
+			c.mu.Lock()
+			c.resume = nil
+			c.mu.Unlock()
+		}
 		if _, err := io.ReadFull(c.conn, hdr); err != nil {
 			rec.add(event{Kind: "X", C: c.idx})
 			return
+		}
+		if total := int(binary.BigEndian.Uint32(hdr)); total > rspLen {
+			// the response counts as received only when all of it has arrived
+			if _, err := io.CopyN(io.Discard, c.conn, int64(total-rspLen)); err != nil {
+				rec.add(event{Kind: "X", C: c.idx})
+				return
+			}
 		}
 		id := int(binary.BigEndian.Uint32(hdr[4:]))
 		switch hdr[8] {
@@ -456,6 +493,7 @@ func drive(sc Scenario, rec *recorder, p *proto, addr string, start time.Time, s
 				fl |= 4
 				kind = "O"
 			}
+			fl |= uint32(r.RspKiB) << 8
 			rec.add(event{Kind: kind, C: c, R: seq[c]})
 			buf = append(buf, request(c*idBase+seq[c], r.Dur, fl)...)
 		}
@@ -479,6 +517,11 @@ func drive(sc Scenario, rec *recorder, p *proto, addr string, start time.Time, s
 		p.mu.Lock()
 		p.ports[port] = i
 		p.mu.Unlock()
+		if sc.Conns[i].PauseMs > 0 {
+			if tc, ok := conn.(*net.TCPConn); ok {
+				tc.SetReadBuffer(32 * 1024)
+			}
+		}
 		clients[i] = &client{idx: i, conn: conn, eof: make(chan struct{})}
 		rec.add(event{Kind: "C", C: i})
 		go clients[i].readLoop(rec)
@@ -493,6 +536,19 @@ func drive(sc Scenario, rec *recorder, p *proto, addr string, start time.Time, s
 	if sc.StaleMs > 0 {
 		time.Sleep(time.Duration(sc.StaleMs) * time.Millisecond) // lets the idle stamps grow old (that is the scenario)
 	}
+
+	// slow readers stop reading now
+	resumes := map[int]func(){}
+	for i, cp := range sc.Conns {
+		if cp.PauseMs > 0 {
+			resumes[i] = clients[i].pause()
+		}
+	}
+	defer func() {
+		for _, f := range resumes {
+			f()
+		}
+	}()
 
 	// pre-shutdown requests
 	pre, stallPlanned := 0, false
@@ -551,6 +607,10 @@ func drive(sc Scenario, rec *recorder, p *proto, addr string, start time.Time, s
 				out.err = "no handler started"
 			}
 		}
+	case "ended": // every Invoke has returned (the responses may still be stuck behind a client that does not read)
+		if !waitUntil(syncWait+time.Duration(totalDur(sc))*time.Millisecond, func() bool { return cnt("E") >= warm+pre }) {
+			out.err = "handlers did not finish"
+		}
 	case "done":
 		if !waitUntil(syncWait+time.Duration(totalDur(sc))*time.Millisecond, func() bool { return settled(rec.snapshot()) >= warm+pre }) {
 			out.err = "pre-shutdown requests not answered"
@@ -570,6 +630,9 @@ func drive(sc Scenario, rec *recorder, p *proto, addr string, start time.Time, s
 	tCall, ctxDur, shutDone := shut()
 	out.ctx = ctxDur
 	out.shutCalled = tCall.Sub(start)
+	for i, f := range resumes {
+		time.AfterFunc(time.Until(tCall.Add(time.Duration(sc.Conns[i].PauseMs)*time.Millisecond)), f)
+	}
 
 	// late requests (written after Shutdown was called, before its first poll)
 	var lateWG sync.WaitGroup
@@ -933,6 +996,14 @@ func durs(rng *rand.Rand) int {
 	return []int{0, 0, 10, 30, 60, 120, 200, 300}[rng.Intn(8)]
 }
 
+func bigReqs(n, kib int) []ReqPlan {
+	out := make([]ReqPlan, n)
+	for i := range out {
+		out[i] = ReqPlan{RspKiB: kib}
+	}
+	return out
+}
+
 func reqKind(rng *rand.Rand) string {
 	switch rng.Intn(8) {
 	case 0:
@@ -961,33 +1032,38 @@ func fixedScenarios() []Scenario {
 	return []Scenario{
 		// no pool
 		{Kind: "plan", Conns: []ConnPlan{{}}, Trigger: "idle", CtxMs: 4000, Model: true},
-		{Kind: "plan", Conns: []ConnPlan{{r(300, 300, 300)}}, Trigger: "started", CtxMs: 5000, Model: true},
-		{Kind: "plan", Conns: []ConnPlan{{r(200, 50, 0, 120)}}, Trigger: "parsed", CtxMs: 5000, Model: true},
-		{Kind: "plan", Conns: []ConnPlan{{r(100, 100)}}, Trigger: "done", CtxMs: 4000, Model: true},
-		{Kind: "plan", Conns: []ConnPlan{{r(150, 20)}, {r(60)}, {}}, Trigger: "started", CtxMs: 5000, Model: true},
-		{Kind: "plan", Conns: []ConnPlan{{append(r(100), late(150, 50, 0)...)}}, Trigger: "started", CtxMs: 5000, Model: true},
-		{Kind: "plan", Conns: []ConnPlan{{late(200, 30)}, {r(250)}}, Trigger: "started", CtxMs: 5000, Model: true},
-		{Kind: "plan", Conns: []ConnPlan{{r(2600)}}, Trigger: "started", CtxMs: 1500, Model: true},          // handler outlives the context
-		{Kind: "plan", Conns: []ConnPlan{{r(3200)}, {r(40)}}, Trigger: "started", CtxMs: 6500, Model: true}, // handler outlives the idle threshold, inside the context
+		{Kind: "plan", Conns: []ConnPlan{{Reqs: r(300, 300, 300)}}, Trigger: "started", CtxMs: 5000, Model: true},
+		{Kind: "plan", Conns: []ConnPlan{{Reqs: r(200, 50, 0, 120)}}, Trigger: "parsed", CtxMs: 5000, Model: true},
+		{Kind: "plan", Conns: []ConnPlan{{Reqs: r(100, 100)}}, Trigger: "done", CtxMs: 4000, Model: true},
+		{Kind: "plan", Conns: []ConnPlan{{Reqs: r(150, 20)}, {Reqs: r(60)}, {}}, Trigger: "started", CtxMs: 5000, Model: true},
+		{Kind: "plan", Conns: []ConnPlan{{Reqs: append(r(100), late(150, 50, 0)...)}}, Trigger: "started", CtxMs: 5000, Model: true},
+		{Kind: "plan", Conns: []ConnPlan{{Reqs: late(200, 30)}, {Reqs: r(250)}}, Trigger: "started", CtxMs: 5000, Model: true},
+		{Kind: "plan", Conns: []ConnPlan{{Reqs: r(2600)}}, Trigger: "started", CtxMs: 1500, Model: true},                // handler outlives the context
+		{Kind: "plan", Conns: []ConnPlan{{Reqs: r(3200)}, {Reqs: r(40)}}, Trigger: "started", CtxMs: 6500, Model: true}, // handler outlives the idle threshold, inside the context
 		// pool: D15 (three pipelined 300 ms requests, one worker) and relatives
-		{Kind: "plan", Pool: 1, QCap: 8, Conns: []ConnPlan{{r(300, 300, 300)}}, Trigger: "started", CtxMs: 3500, Model: true},
-		{Kind: "plan", Pool: 1, QCap: 8, Conns: []ConnPlan{{r(100, 100, 100, 100, 100, 100, 100, 100)}}, Trigger: "started", CtxMs: 3500, Model: true},
-		{Kind: "plan", Pool: 1, QCap: 64, Conns: []ConnPlan{{append(r(20), late(150, 20, 20)...)}}, Trigger: "done", CtxMs: 3000, Model: true},
-		{Kind: "plan", Pool: 2, QCap: 1, Conns: []ConnPlan{{r(150, 150, 150, 150, 150, 150)}}, Trigger: "parsed", CtxMs: 4000, Model: true},
-		{Kind: "plan", Pool: 3, QCap: 0, Conns: []ConnPlan{{r(120, 120)}, {r(120, 120)}}, Trigger: "started", CtxMs: 4000, Model: true},
-		{Kind: "plan", Pool: 4, QCap: 16, Conns: []ConnPlan{{r(50, 50)}, {late(120, 40)}}, Trigger: "parsed", CtxMs: 3500, Model: true},
+		{Kind: "plan", Pool: 1, QCap: 8, Conns: []ConnPlan{{Reqs: r(300, 300, 300)}}, Trigger: "started", CtxMs: 3500, Model: true},
+		{Kind: "plan", Pool: 1, QCap: 8, Conns: []ConnPlan{{Reqs: r(100, 100, 100, 100, 100, 100, 100, 100)}}, Trigger: "started", CtxMs: 3500, Model: true},
+		{Kind: "plan", Pool: 1, QCap: 64, Conns: []ConnPlan{{Reqs: append(r(20), late(150, 20, 20)...)}}, Trigger: "done", CtxMs: 3000, Model: true},
+		{Kind: "plan", Pool: 2, QCap: 1, Conns: []ConnPlan{{Reqs: r(150, 150, 150, 150, 150, 150)}}, Trigger: "parsed", CtxMs: 4000, Model: true},
+		{Kind: "plan", Pool: 3, QCap: 0, Conns: []ConnPlan{{Reqs: r(120, 120)}, {Reqs: r(120, 120)}}, Trigger: "started", CtxMs: 4000, Model: true},
+		{Kind: "plan", Pool: 4, QCap: 16, Conns: []ConnPlan{{Reqs: r(50, 50)}, {Reqs: late(120, 40)}}, Trigger: "parsed", CtxMs: 3500, Model: true},
 		{Kind: "plan", Pool: 1, QCap: 1, Conns: []ConnPlan{{}}, Trigger: "idle", CtxMs: 3000, Model: true},
 		// a request of one connection waits in the queue behind more than two poll periods of another connection's work
-		{Kind: "plan", Pool: 1, QCap: 8, Seq: true, Conns: []ConnPlan{{r(400, 400, 400, 400)}, {r(30)}}, Trigger: "parsed", CtxMs: 5000, Model: true},
+		{Kind: "plan", Pool: 1, QCap: 8, Seq: true, Conns: []ConnPlan{{Reqs: r(400, 400, 400, 400)}, {Reqs: r(30)}}, Trigger: "parsed", CtxMs: 5000, Model: true},
 		// requests that get no response (one-way packets, empty responses): their handlers leave through the
 		// early return of handleConn; the connection must still count as drained
-		{Kind: "plan", Conns: []ConnPlan{{[]ReqPlan{{Dur: 20}, {Dur: 10, Kind: "oneway"}}}}, Trigger: "done", CtxMs: 10000, Model: true},
-		{Kind: "plan", Conns: []ConnPlan{{[]ReqPlan{{Dur: 0, Kind: "empty"}}}, {[]ReqPlan{{Dur: 30}}}}, Trigger: "done", CtxMs: 10000, Model: true},
-		{Kind: "plan", Conns: []ConnPlan{{[]ReqPlan{{Dur: 300, Kind: "oneway"}, {Dur: 100}}}}, Trigger: "started", CtxMs: 9000, Model: true},
-		{Kind: "plan", Pool: 2, QCap: 8, Conns: []ConnPlan{{[]ReqPlan{{Dur: 0, Kind: "oneway"}, {Dur: 30}, {Dur: 10, Kind: "empty"}}}, {[]ReqPlan{{Dur: 0, Kind: "empty"}}}}, Trigger: "done", CtxMs: 10000, Model: true},
-		{Kind: "plan", Pool: 1, QCap: 2, Conns: []ConnPlan{{[]ReqPlan{{Dur: 50}, {Dur: 20, Kind: "oneway", LateMs: 150}}}}, Trigger: "done", CtxMs: 9000, Model: true},
+		{Kind: "plan", Conns: []ConnPlan{{Reqs: []ReqPlan{{Dur: 20}, {Dur: 10, Kind: "oneway"}}}}, Trigger: "done", CtxMs: 10000, Model: true},
+		{Kind: "plan", Conns: []ConnPlan{{Reqs: []ReqPlan{{Dur: 0, Kind: "empty"}}}, {Reqs: []ReqPlan{{Dur: 30}}}}, Trigger: "done", CtxMs: 10000, Model: true},
+		{Kind: "plan", Conns: []ConnPlan{{Reqs: []ReqPlan{{Dur: 300, Kind: "oneway"}, {Dur: 100}}}}, Trigger: "started", CtxMs: 9000, Model: true},
+		{Kind: "plan", Pool: 2, QCap: 8, Conns: []ConnPlan{{Reqs: []ReqPlan{{Dur: 0, Kind: "oneway"}, {Dur: 30}, {Dur: 10, Kind: "empty"}}}, {Reqs: []ReqPlan{{Dur: 0, Kind: "empty"}}}}, Trigger: "done", CtxMs: 10000, Model: true},
+		{Kind: "plan", Pool: 1, QCap: 2, Conns: []ConnPlan{{Reqs: []ReqPlan{{Dur: 50}, {Dur: 20, Kind: "oneway", LateMs: 150}}}}, Trigger: "done", CtxMs: 9000, Model: true},
+		// slow readers: the responses of one connection exceed the socket buffers and the client does not
+		// read from before the shutdown until well after the drain poll; every response, then the close
+		// message, then EOF must still arrive
+		{Kind: "plan", Conns: []ConnPlan{{Reqs: bigReqs(60, 64), PauseMs: 1300}}, Trigger: "ended", CtxMs: 12000},
+		{Kind: "plan", Conns: []ConnPlan{{Reqs: bigReqs(3, 1024), PauseMs: 900}, {Reqs: []ReqPlan{{Dur: 50}}}}, Trigger: "ended", CtxMs: 12000, Model: true},
 		// D16
-		{Kind: "toctou", Conns: []ConnPlan{{[]ReqPlan{{Dur: 20, Stall: true}}}}, Trigger: "parsed", CtxMs: 5000, StaleMs: 3100, Model: true},
+		{Kind: "toctou", Conns: []ConnPlan{{Reqs: []ReqPlan{{Dur: 20, Stall: true}}}}, Trigger: "parsed", CtxMs: 5000, StaleMs: 3100, Model: true},
 	}
 }
 
@@ -1003,17 +1079,17 @@ func appScenarios(rng *rand.Rand, thorough bool) []Scenario {
 	}
 	scs := []Scenario{
 		{Kind: "app", CtxMs: 12000, Model: true, Adapters: []AdapterPlan{
-			{Conns: []ConnPlan{{r(700)}}, Trigger: "started"},
-			{Conns: []ConnPlan{{r(900, 100)}}, Trigger: "started"}}},
+			{Conns: []ConnPlan{{Reqs: r(700)}}, Trigger: "started"},
+			{Conns: []ConnPlan{{Reqs: r(900, 100)}}, Trigger: "started"}}},
 		{Kind: "app", Pool: 2, QCap: 8, CtxMs: 12000, Model: true, Adapters: []AdapterPlan{
-			{Conns: []ConnPlan{{r(600, 600, 600)}}, Trigger: "started"},
-			{Conns: []ConnPlan{{r(300)}, {r(50)}}, Trigger: "started"},
-			{Conns: []ConnPlan{{[]ReqPlan{{Dur: 400}, {Dur: 20, Kind: "oneway"}}}}, Trigger: "started"}}},
+			{Conns: []ConnPlan{{Reqs: r(600, 600, 600)}}, Trigger: "started"},
+			{Conns: []ConnPlan{{Reqs: r(300)}, {Reqs: r(50)}}, Trigger: "started"},
+			{Conns: []ConnPlan{{Reqs: []ReqPlan{{Dur: 400}, {Dur: 20, Kind: "oneway"}}}}, Trigger: "started"}}},
 		{Kind: "app", CtxMs: 12000, Model: true, Adapters: []AdapterPlan{
 			{Conns: []ConnPlan{{}}, Trigger: "idle"},
-			{Conns: []ConnPlan{{r(1200)}}, Trigger: "started"},
-			{Conns: []ConnPlan{{r(40)}}, Trigger: "done"},
-			{Conns: []ConnPlan{{[]ReqPlan{{Dur: 500}, {Dur: 50, LateMs: 150}}}}, Trigger: "started"}}},
+			{Conns: []ConnPlan{{Reqs: r(1200)}}, Trigger: "started"},
+			{Conns: []ConnPlan{{Reqs: r(40)}}, Trigger: "done"},
+			{Conns: []ConnPlan{{Reqs: []ReqPlan{{Dur: 500}, {Dur: 50, LateMs: 150}}}}, Trigger: "started"}}},
 	}
 	n := 0
 	if thorough {
@@ -1185,7 +1261,7 @@ func main() {
 			n = 280
 			// the stale-stamp scenario with other shapes
 			for i := 0; i < 4; i++ {
-				sc := Scenario{Kind: "toctou", Conns: []ConnPlan{{[]ReqPlan{{Dur: 10 * i, Stall: true}}}}, Trigger: "parsed", CtxMs: 4000 + 500*i, StaleMs: 3100, Model: true}
+				sc := Scenario{Kind: "toctou", Conns: []ConnPlan{{Reqs: []ReqPlan{{Dur: 10 * i, Stall: true}}}}, Trigger: "parsed", CtxMs: 4000 + 500*i, StaleMs: 3100, Model: true}
 				if i%2 == 1 {
 					sc.Conns = append(sc.Conns, ConnPlan{})
 				}
